@@ -160,7 +160,7 @@ def run(ctx):
     ctx.assumptions += ["np.random.choice / np.where semantics; selection frequencies and ESS bounds are statistical / numeric and not decided"]
 
 
-def ess_rule(ctx, clause):
+def ess_rule(ctx, clause, only=None):
     """Every effective-sample-size implementation of the package is the log-space Kish form (shared by C16.3 and C15.4)."""
     prog = ctx.prog
     # ---- ESS implementations ---------------------------------------------
@@ -194,6 +194,8 @@ def ess_rule(ctx, clause):
     from ..summ import summarise as _summ
 
     for g, var in impls:
+        if only is not None and g.name not in only:
+            continue
         vecs = {var, "self.log_posterior_weights"} if g.name == "effective_n_posterior_samples" else {var}
         ess_like, reports, n_paths = [], [], 0
         try:
@@ -207,7 +209,7 @@ def ess_rule(ctx, clause):
             seen = set()
             for r_ in roots:
                 for c_ in ast.walk(r_):
-                    if isinstance(c_, ast.Call) and src(c_.func).split(".")[-1] == "exp" and src(c_) not in seen:
+                    if isinstance(c_, ast.Call) and src(c_.func).split(".")[-1] in ("exp", "effective_sample_size") and src(c_) not in seen:
                         seen.add(src(c_))
                         v_ = ev.ev(c_)
                         if v_[0] == "exp" and v_[1][0] == "sca" and any(k_[0] == "L" and k_[1] != 1 for k_ in v_[1][1]):
